@@ -21,6 +21,7 @@
 package main
 
 import (
+	"sync/atomic"
 	"fmt"
 	"sort"
 	"strings"
@@ -44,7 +45,11 @@ type Case struct {
 func (c Case) String() string {
 	s := fmt.Sprintf("config=%s chain=[%s]", c.Config, strings.Join(c.Tokens, ","))
 	if c.Prune != nil {
-		s += fmt.Sprintf(" prune=[%d,%d)", c.Prune[0], c.Prune[1])
+		if c.Prune[0] == sweepMark {
+			s += " then the offline state pruner's sweep"
+		} else {
+			s += fmt.Sprintf(" prune=[%d,%d)", c.Prune[0], c.Prune[1])
+		}
 	}
 	return s
 }
@@ -177,6 +182,8 @@ func main() {
 	for _, k := range []string{"none", "relist", "add", "rm", "pow", "back"} {
 		r.Require(r.Get("token_"+k) > 0, "alphabet token kind never executed: "+k)
 	}
+	r.Add("state_pruner_sweep_cases", atomic.LoadInt64(&sweepCases))
+	r.Require(r.Get("state_pruner_sweep_cases") > 0, "the offline state pruner's sweep never ran")
 	r.Require(r.Get("model_mismatch") == 0, "the checker's membership model disagrees with the NextValidators produced by the real updateState")
 	r.Require(r.Get("chains_rejected") == 0, "some scripted validator change was rejected by the real updateState (alphabet not fully executable)")
 	r.Require(r.Get("chains_with_cur_next_priorities_differing") > 0, "no saved state had Validators and NextValidators with equal membership and different priorities (priority round trip would be vacuous)")
